@@ -35,7 +35,7 @@ def carryable_only(rng, version, hist):
 
 CFG = {"quick": 300, "thorough": 10000, "lengths": [12, 25, 40], "malformed": 0.12,
        "bias": {"req": 2.5, "internal": 2, "idreq": 2, "clock": 3, "metric": 3, "ctl_set": 1.5},
-       "post": [gw.pending_pair_burst, gw.text_echo_burst, boundary_ids, carryable_only]}
+       "post": [gw.pending_pair_burst, gw.text_echo_burst, boundary_ids, gw.near_valid_reports, carryable_only]}
 
 
 def relevant(hist, obs):
